@@ -29,12 +29,13 @@ TIERS = {
     'quick': {'shards': 14, 'maxlen': 3, 'random': 6000, 'timeout': 600, 'min_cases': 15000,
               'exhaustive': True, 'require_branches': ['arm:Z-adds-line', 'arm:Z-no-line', 'arm:S-reflect',
                                                        'arm:S-fallback', 'arm:T-reflect', 'arm:T-fallback',
-                                                       'arm:zero-radius', 'arm:implicit-after-m', 'lex:glued-flags']},
+                                                       'arm:zero-radius', 'arm:implicit-after-m', 'lex:glued-flags',
+                                                       'lex:shared-argument-text']},
     'thorough': {'shards': 14, 'maxlen': 4, 'random': 200000, 'timeout': 3000, 'min_cases': 300000,
                  'exhaustive': True, 'require_branches': ['arm:Z-adds-line', 'arm:Z-no-line', 'arm:S-reflect',
                                                           'arm:S-fallback', 'arm:T-reflect', 'arm:T-fallback',
                                                           'arm:zero-radius', 'arm:implicit-after-m',
-                                                          'lex:glued-flags']},
+                                                          'lex:glued-flags', 'lex:shared-argument-text']},
 }
 
 EXPECT = {}          # side channel: string -> (program, features)
@@ -215,6 +216,8 @@ def _args_for(letter, counter, rng=None, cls=None):
                 v = abs(v) + 1.0 if rng is None else abs(v)
                 if rng is not None and (v == 0 or v != v):
                     v = 1.0
+                if rng is not None and rng.random() < 0.08:
+                    v = -v              # F.6.6: a negative radius stands for its absolute value
             elif j in (3, 4):
                 v = (counter[0] * 7 + j) % 2 if rng is None else rng.randint(0, 1)
         g.append(v)
@@ -275,6 +278,24 @@ def cases(ctx):
                 yield {'kind': 'prog', 'prog': prog, 'spell_seed': idx, 'glue': glue,
                        'cls': ['exhaustive', 'len:%d' % L, 'variant:' + variant] + (['glued-flags'] if glue else [])}
     n = plan['random'] // ctx.nshards
+    # the same argument text after different commands: "20 20 0 01 10 10" is one arc (flags 0 and 1 written
+    # together) after a/A and six plain numbers after c, l, t, ...; how a run of arguments splits into numbers
+    # depends on the command it follows, never on the text alone (and not on what was parsed earlier)
+    for i in range(max(20, n // 25)):
+        def num():
+            return rng.choice([str(rng.randint(1, 60)), '%d.%d' % (rng.randint(0, 40), rng.randint(1, 9)), '.%d' % rng.randint(1, 9)])
+        f1, f2 = rng.randint(0, 1), rng.randint(0, 1)
+        x = num()
+        if rng.random() < 0.5:
+            text = '%s %s %s %d%d %s %s' % (num(), num(), str(rng.randint(0, 90)), f1, f2, x, num())
+        else:
+            text = '%s %s %s %d %d%s %s' % (num(), num(), str(rng.randint(0, 90)), f1, f2, x.lstrip('.') if x[0] == '.' else x, num())
+        cmds = [rng.choice('aA'), rng.choice('cClLtTmM')]
+        if rng.random() < 0.5:
+            cmds.append(rng.choice('aAcl'))
+        rng.shuffle(cmds)
+        d = 'M%s %s' % (num(), num()) + ''.join('%s%s%s' % (c, rng.choice(['', ' ']), text) for c in cmds)
+        yield {'kind': 'text', 'd': d, 'cls': ['shared-argument-text']}
     for i in range(n):
         cc = rng.choice(['int', 'half', 'rand', 'tiny', 'huge', 'mixed', 'expfmt', 'dyadic'])
         letters = [rng.choice(R.LETTERS) for _ in range(rng.randint(6, 40))]
@@ -294,6 +315,17 @@ def cases(ctx):
 
 def run_case(ctx, case):
     from svgpathtools import parse_path, Path
+    if case['kind'] == 'text':
+        ctx.branch('lex:shared-argument-text')
+        try:
+            R.tokenize(case['d'])
+        except R.Ungrammatical as e:
+            raise RuntimeError('generator produced an ungrammatical string: %r (%s)' % (case['d'], e))
+        try:
+            parse_path(case['d'])
+        except Exception:     # judged by the exception observer
+            pass
+        return
     prog = case['prog']
     glue = bool(case.get('glue'))
     feats = features(prog, glue)
